@@ -910,6 +910,10 @@ int websocket_upgrade_on_headers_complete(http_parser *parser)
 
 static int send_frame(const struct websocket *s, uint8_t *payload, size_t length, unsigned int type)
 {
+	if (unlikely(s->connection == NULL)) {
+		return -1;
+	}
+
 	char ws_header[14];
 	uint8_t first_len;
 	size_t header_index = 2;
@@ -1062,4 +1066,5 @@ void websocket_close(struct websocket *ws, enum ws_status_code status_code)
 		free_compression(ws);
 	}
 	free_connection(ws->connection);
+	ws->connection = NULL;
 }
